@@ -178,9 +178,10 @@ class Gen(object):
             st["k"]["retain"] = rng.random() < 0.7
         if h:
             st["h"] = h
-        if cfg["faults"]["reentrant"] and rng.random() < 0.1 and qos > 0:
+        if cfg["faults"]["reentrant"] and rng.random() < 0.15 and qos > 0:
             st["then"] = [{"op": "app.call", "addr": addr, "m": "publish",
-                           "k": {"topic": gen_topic(rng), "message": "re", "qos": rng.randint(0, 2)}, "when": "ok"}]
+                           "k": {"topic": gen_topic(rng), "message": "re", "qos": rng.randint(0, 2)},
+                           "when": rng.choice(["ok", "ok", "err", "any"])}]
         return st
 
     def subscribe_step(self, addr, h=None):
@@ -195,6 +196,17 @@ class Gen(object):
         st = {"op": "app.call", "addr": addr, "m": "subscribe", "a": a}
         if h:
             st["h"] = h
+        if self.cfg["faults"]["reentrant"] and rng.random() < 0.25:
+            # the application reacts to the outcome from inside the callback
+            nxt = rng.choice(["subscribe", "subscribe", "unsubscribe", "publish"])
+            if nxt == "subscribe":
+                st["then"] = [{"op": "app.call", "addr": addr, "m": "subscribe", "a": [gen_topic(rng, True), rng.randint(0, 2)],
+                               "when": rng.choice(["ok", "ok", "any"])}]
+            elif nxt == "unsubscribe":
+                st["then"] = [{"op": "app.call", "addr": addr, "m": "unsubscribe", "a": [gen_topic(rng, True)], "when": "ok"}]
+            elif self.cfg["profile"] & 2:
+                st["then"] = [{"op": "app.call", "addr": addr, "m": "publish",
+                               "k": {"topic": gen_topic(rng), "message": "s", "qos": rng.randint(0, 2)}, "when": "ok"}]
         return st
 
     def unsubscribe_step(self, addr, h=None):
@@ -206,6 +218,9 @@ class Gen(object):
         st = {"op": "app.call", "addr": addr, "m": "unsubscribe", "a": a}
         if h:
             st["h"] = h
+        if self.cfg["faults"]["reentrant"] and rng.random() < 0.25:
+            st["then"] = [{"op": "app.call", "addr": addr, "m": rng.choice(["unsubscribe", "unsubscribe", "subscribe"]),
+                           "a": [gen_topic(rng, True)], "when": rng.choice(["ok", "ok", "any"])}]
         return st
 
     def inbound_publish(self, addr, w):
@@ -294,6 +309,8 @@ class Gen(object):
                         return {"op": "app.call", "addr": addr, "m": "setBandwith", "a": list(cfg["bw"])}
                 if r < 0.04 and F["close"]:
                     return {"op": "net.close", "addr": addr, "kind": rng.choice(["fin", "rst"])}
+                if (fam == "args" and r < 0.45) or (fam in ("persistent", "general", "handshake") and r < 0.09):
+                    return self.bad_connect(addr)
                 if r < 0.10:
                     return self.gate_call(addr, "cur", w, L)
             return self.connect_step(addr, w, L)
@@ -584,6 +601,46 @@ class Gen(object):
         return {"op": "app.call", "addr": addr, "m": "unsubscribe", "tag": "bad",
                 "a": [rng.choice([5, {"$": "none"}, {"$": "obj"}, {"$": "tuple", "v": ["a", "b"]}, {"$": "bytes", "v": "61"}])]}
 
+    def bad_connect(self, addr):
+        """connect() with one argument the statement of C20 names as invalid."""
+        rng = self.rng
+        ver = self.cfg["version"]
+        vv = {"$": "v31"} if ver == 3 else {"$": "v311"}
+        k = {"cleanStart": rng.random() < 0.5, "version": vv, "keepalive": rng.choice([0, 5, 60])}
+        cid = "bad"
+        long_s = {"$": "rep", "s": "L", "n": 65536}
+        choice = rng.choice(["willqos", "keepalive", "cid31", "version", "will_topic_only", "will_msg_only", "pw_no_user",
+                             "long_cid", "long_user", "long_pw", "long_willtopic", "long_willmsg"])
+        if choice == "willqos":
+            k.update({"willTopic": "w", "willMessage": "m", "willQoS": rng.choice([3, -1, 4])})
+        elif choice == "keepalive":
+            k["keepalive"] = rng.choice([65536, -1, 100000])
+        elif choice == "cid31":
+            k["version"] = {"$": "v31"}
+            cid = "x" * rng.choice([24, 30, 100])
+        elif choice == "version":
+            k["version"] = rng.choice([{"$": "ver", "level": 5, "tag": "MQTT"}, {"$": "ver", "level": 4, "tag": "MQTX"},
+                                       {"$": "ver", "level": 2, "tag": "MQIsdp"}])
+        elif choice == "will_topic_only":
+            k["willTopic"] = "w"
+        elif choice == "will_msg_only":
+            k["willMessage"] = "m"
+        elif choice == "pw_no_user":
+            k["password"] = "secret"
+        elif choice == "long_cid":
+            cid = long_s
+            k["version"] = {"$": "v311"}
+        elif choice == "long_user":
+            k["username"] = long_s
+        elif choice == "long_pw":
+            k["username"] = "u"
+            k["password"] = long_s
+        elif choice == "long_willtopic":
+            k.update({"willTopic": long_s, "willMessage": "m"})
+        else:
+            k.update({"willTopic": "w", "willMessage": long_s})
+        return {"op": "app.call", "addr": addr, "m": "connect", "a": [cid], "k": k, "tag": "bad"}
+
     def good_boundary(self, addr):
         rng = self.rng
         s65535 = {"$": "rep", "s": "M", "n": 65535}
@@ -606,7 +663,7 @@ class Gen(object):
         rng = self.rng
         ver = self.cfg["version"]
         kind = _w(rng, [("mutate", 5), ("truncate", 2), ("extend", 2), ("firstbyte", 3), ("random", 2), ("badutf8", 1.5),
-                        ("reserved", 1.5), ("shortpub", 2), ("longvarint", 0.5)])
+                        ("reserved", 1.5), ("shortpub", 2), ("longvarint", 0.5), ("qos3", 1.5), ("relfor", 1.0)])
         sess = w.broker.session(addr)
         mid = rng.choice([1, 2, 3] + list(sess.need["PUBACK"]) [:2] + list(sess.need["PUBREC"])[:2])
         valid = [
@@ -646,6 +703,17 @@ class Gen(object):
             raw = rng.choice([bytes([0x20, 2, 0, rng.randint(6, 255)]), bytes([0x20, 2, rng.randint(2, 255), 0]),
                               bytes([0x00, 0]), bytes([0xF0, 0]), bytes([0x36, 5, 0, 1, 0x61, 0, 1]),
                               bytes([0x10, 0]), bytes([0x80, 2, 0, 1]), bytes([0xE0, 0]), bytes([0xC0, 0])])
+        elif kind == "qos3":
+            # PUBLISH with both QoS bits set (reserved), optionally followed by a PUBREL for its id
+            mid3 = rng.choice([1, 6, 9, 77, 4000, 65535])
+            self._last_bad_id = mid3
+            raw = rc.frame(0x36 | (8 if rng.random() < 0.3 else 0) | (1 if rng.random() < 0.3 else 0),
+                           bytes((0, 3)) + b"q/3" + bytes((mid3 >> 8, mid3 & 0xFF)) + b"bogus")
+            if rng.random() < 0.4:
+                raw += rc.encode({"type": "PUBREL", "id": mid3}, ver)
+        elif kind == "relfor":
+            # a well-formed PUBREL for the identifier of an earlier malformed PUBLISH
+            raw = rc.encode({"type": "PUBREL", "id": getattr(self, "_last_bad_id", 6)}, ver)
         elif kind == "shortpub":
             # PUBLISH whose topic length overruns the packet
             q = rng.randint(0, 2)
